@@ -38,12 +38,12 @@ type letter struct {
 	WrongMsg bool   // signatures are over a different message
 	SelfSign string // "ok" | "bad" | "" (only add_peer carries one)
 	Core     bool   // member of the core alphabet (21 letters)
-	Mini     bool   // member of the mini alphabet (14 letters; quick tier, length 3)
+	Mini     bool   // member of the mini alphabet (10 letters; quick tier, length 3)
 }
 
 var miniLetters = map[string]bool{
-	"add(K,0)": true, "upd(B,5)": true, "upd(B,1)": true, "rm(B)": true, "rm(A)": true, "Y:upd(B,1)": true, "Y:rm(B)": true,
-	"upd(B,5)@n-1": true, "upd(B,5)@n+1": true, "Y>X:upd(B,5)": true, "upd(B,5)/under": true, "upd(B,5)/dup": true,
+	"add(K,0)": true, "upd(B,5)": true, "rm(B)": true, "Y:upd(B,1)": true,
+	"upd(B,5)@n-1": true, "upd(B,5)@n+1": true, "Y>X:upd(B,5)": true, "upd(B,5)/dup": true,
 	"replay#1": true, "Y~:replay#1": true,
 }
 
@@ -529,7 +529,11 @@ func runSequence(kase seqCase) seqResult {
 			if several {
 				shape = "several-requests-same-key-in-one-block"
 			}
-			return viol(map[string]string{"site": "AdminOp.EndBlock", "kind": "accepted-requests-make-block-fail", "shape": shape, "ops": ops},
+			sig := map[string]string{"site": "AdminOp.EndBlock", "kind": "accepted-requests-make-block-fail", "shape": shape}
+			if ops != "" {
+				sig["ops"] = ops
+			}
+			return viol(sig,
 				"every request was answered, but applying the block fails (%s): the height never completes.\n%s", o1.Err, describe())
 		}
 		if d := diffObs(o1, o2); d != "" {
